@@ -162,7 +162,9 @@ def _name(d: dict, asm: Assembled) -> Failure:
         if o.kind == 'splice':
             fn = o.fn.split(' :: ')[-1].replace('fn ', '')
             if msg.startswith('assertion failed'):
-                kind = 'hint'
+                # an assert spliced into the body is a proof hint - unless its label marks it as a program-point OBLIGATION taken
+                # from the property statement (e.g. "success is only reported when all input is consumed")
+                kind = 'contract' if label.startswith('obligation:') else 'hint'
             elif msg.startswith('decreases not satisfied') or msg.startswith('could not prove termination'):
                 kind = 'safety'      # termination
             else:
@@ -200,6 +202,8 @@ def _name(d: dict, asm: Assembled) -> Failure:
         text = lines[loc_span['line_start'] - 1]
         label = _label_of(text) or ' '.join(text.strip().rstrip(',').split())[:90]
         kind = 'hint' if (msg.startswith('assertion') or msg.startswith('precondition')) else 'contract'
+        if label.startswith('obligation:') and msg.startswith('assertion'):
+            kind = 'contract'
         return Failure('%s::%s::%s' % (fn, o_loc.block, label), msg, kind, fn, '%s:%d' % (os.path.basename(o_loc.where), o_loc.line),
                        d.get('rendered', ''), all_lines)
     if o_loc.kind == 'raw':
